@@ -237,12 +237,12 @@ def frameReceived (st : State) (oid : Nat) (s : Stream) (f : Frame) : State × L
   | .stReq =>
     match f.ty with
     | .payload =>
-      if !s.subscribed then (st, [.send (mkError s.sid cApplicationError)])    -- AttributeError: no subscriber yet
+      if !s.subscribed then (st, [.send (mkError f.sid cApplicationError)])    -- AttributeError: no subscriber yet
       else
         let outs := if f.next then [.onNext oid f.data f.complete] else if f.complete then [.onComplete oid] else []
         (if f.complete then st.finish s.sid else st, outs)
     | .error =>
-      if !s.subscribed then (st, [.send (mkError s.sid cApplicationError)])
+      if !s.subscribed then (st, [.send (mkError f.sid cApplicationError)])
       else (st.finish s.sid, [.onError oid f.code])
     | _ => (st, [])
   | .stResp =>
@@ -254,22 +254,22 @@ def frameReceived (st : State) (oid : Nat) (s : Stream) (f : Frame) : State × L
     match f.ty with
     | .cancel =>
       if s.hasPub then (markChannel st oid s false true, [.pubCancel oid])
-      else (st, [.send (mkError s.sid cApplicationError)])                     -- `None.cancel()`
+      else (st, [.send (mkError f.sid cApplicationError)])                     -- `None.cancel()`
     | .requestN =>
-      if !s.setupDone then (st, [.send (mkError s.sid cApplicationError)])     -- `self.subscriber` is None
+      if !s.setupDone then (st, [.send (mkError f.sid cApplicationError)])     -- `self.subscriber` is None
       else (st, if s.hasPub then [.pubRequest oid f.n] else [])
     | .payload =>
       if s.recvComplete then (st, [])                                          -- fix F8
       else if f.next then
-        if !s.subscribed then (st, [.send (mkError s.sid cApplicationError)])  -- no remote subscriber
+        if !s.subscribed then (st, [.send (mkError f.sid cApplicationError)])  -- no remote subscriber
         else (if f.complete then markChannel st oid s true false else st, [.onNext oid f.data f.complete])
       else if f.complete then
-        if !s.subscribed then (st, [.send (mkError s.sid cApplicationError)])
+        if !s.subscribed then (st, [.send (mkError f.sid cApplicationError)])
         else (markChannel st oid s true false, [.onComplete oid])
       else (st, [])
     | .error =>
       if s.recvComplete then (st, [])
-      else if !s.subscribed then (st, [.send (mkError s.sid cApplicationError)])
+      else if !s.subscribed then (st, [.send (mkError f.sid cApplicationError)])
       else (markChannel st oid s true false, [.onError oid f.code])
     | _ => (st, [])
 
